@@ -42,6 +42,13 @@ def run(ctx):
             raise ToolError("the checksum simulation produced no vectors")
         os.remove(s["out"])
 
+    # ---- the reader of the multiplexer stream under cancellation (DgramReader.tla) ---------------
+    import c06
+    s, r = c06.reader_job(ctx, "icmp")
+    states += s["distinct"]
+    trans += s["states"]
+    behaviours += r["counters"].get("tlc_behaviours_replayed", 0)
+
     # ---- mux: histories replayed into the real forwarder on interface lo ------------------------
     cfg = "MCIcmpMuxGen.thorough.cfg" if ctx.thorough else "MCIcmpMuxGen.quick.cfg"
     s = ctx.tlc("MCIcmpMuxGen", cfg, workers=8, timeout=1500, require_actions=("MCKernel", "MCSend", "MCInject", "MCTick"))
